@@ -497,6 +497,25 @@ def check_C18(ctx):
             ctx.violation(f"[C18] a test that makes {body_n} checks and whose exit handler makes {late_n} more and a failing one (the channel holds {cap} records): {what}",
                           "# reporter: text   harness/scenario_run <file> text <outdir>\n" + (sc.text() if len(sc.text()) < 4000 else sc.text()[:300] + f"\n# ... test big: {body_n} x P, then AL{late_n}"), found_input=True,
                           facts={"late_checks": True, "body": body_n, "late": late_n})
+    # a test that ignores SIGPIPE (as network code does) and overflows the channel: the signal the writer raises for itself does not end it, so
+    # nothing more is sent - no completion notice either - and the test is an exception; what was lost is never silently "let stand"
+    ig = []
+    for body_n, tail in ((cap, ["F"] * 5), (cap + 3, ["P"]), (cap - 1, ["P", "F"]), (2 * cap, ["F"])):
+        sc = Scen(S("top", items=[T("a", body=["P"]), T("big", body=["IP"] + ["P"] * body_n + tail), T("b", body=["P"])]), mode="fork", cap=cap)
+        ig.append((sc, body_n, tail))
+    iobs = bench.run_many([(sc.text(), "text") for sc, _, _ in ig], timeout=120)
+    for (sc, body_n, tail), o in zip(ig, iobs):
+        tot = observed_totals(o, "text"); st = status_of(o)
+        made = (body_n + tail.count("P") + 3, tail.count("F"))
+        what = None
+        if st == "timeout": what = "the run does not terminate"
+        elif st in ("0", "exit0"): what = f"the run ends with status {st} although results were lost (totals {tot}, made {made})"
+        elif st == "1" and tot is not None and int(tot[3]) == 0 and (int(tot[0]), int(tot[1])) != made:
+            what = f"no exception is reported, yet the totals {tot} are not the {made} (passes, failures) that were made"
+        if what and lshown < 6:
+            lshown += 1
+            ctx.violation(f"[C18] a test that ignores SIGPIPE and makes {body_n + len(tail)} checks (the channel holds {cap} records): {what}",
+                          "# reporter: text   harness/scenario_run <file> text <outdir>\n" + sc.text()[:300] + f"\n# ... test big: IP, {body_n} x P, then {' '.join(tail)}", found_input=True, facts={"ignores_sigpipe": True})
     ctx.coverage["exit_handler_runs"] = len(late)
     # the verdict of a run in which a test overflows the channel, under the reporters that fold their totals themselves: the
     # overflowing test in a sub-suite that is not the last one to finish, everything else green
